@@ -12,7 +12,6 @@ package vbft
 
 import (
 	"fmt"
-	"math"
 	"sort"
 	"testing"
 
@@ -23,8 +22,10 @@ import (
 
 const c28Blk = 5
 
-// ---- closed forms (descriptions of the code as read; validated against the measured table) ----
+// ---- shared arithmetic (identical copy in the three C28 harness files) ----
 
+// c28Form: closed form of a threshold as read off the code; validated against
+// the measured table by the unit that owns it.
 type c28Form struct {
 	name  string
 	final bool // decides that a block is final (pairwise intersection required); otherwise a C+1-type threshold (t > C)
@@ -32,24 +33,177 @@ type c28Form struct {
 	f     func(n, c int) int
 }
 
-func c28max1(x int) int {
-	if x < 1 {
-		return 1
+func c28max(x, y int) int {
+	if x < y {
+		return y
 	}
 	return x
 }
 
 var c28Forms = []c28Form{
-	{"vbft.commit-msgs(proposer-not-a-signer)", true, "vbft", func(n, c int) int { return c28max1(n-(n-1)/3-1) + 1 }},
-	{"vbft.commit-msgs(proposer-among-signers)", true, "vbft", func(n, c int) int { return c28max1(n - (n-1)/3 - 1) }},
+	{"vbft.commit-msgs(proposer-not-a-signer)", true, "vbft", func(n, c int) int { return c28max(n-(n-1)/3-1, 1) + 1 }},
+	{"vbft.commit-msgs(proposer-among-signers)", true, "vbft", func(n, c int) int { return c28max(n-(n-1)/3-1, 1) }},
 	{"vbft.commitDone(endorse-sigs)", true, "vbft", func(n, c int) int { return n - (n-1)/3 }},
 	{"validation.VerifyBlock", true, "validator", func(n, c int) int { return n - (n-1)/3 }},
-	{"ledgerstore.verifyHeader(solo/dbft)", true, "ledgerstore", func(n, c int) int { return n - (n-1)/3 }},
 	{"types.AddressFromBookkeepers(m-of-n)", true, "validator", func(n, c int) int { return n - (n-1)/3 }},
+	{"ledgerstore.verifyHeader(solo/dbft)", true, "ledgerstore", func(n, c int) int { return n - (n-1)/3 }},
 	{"vbft.endorseDone", false, "vbft", func(n, c int) int { return c + 1 }},
-	{"ledgerstore.verifyHeader(vbft).listed-distinct", false, "ledgerstore", func(n, c int) int { return c + 1 }},
-	{"ledgerstore.verifyHeader(vbft).valid-signatures", false, "ledgerstore", func(n, c int) int { return c28max1(n - 6*n/7) }},
+	{"ledgerstore.verifyHeader(vbft).listed-distinct", false, "ledgerstore", func(n, c int) int { return c28max(c+1, n-6*n/7) }},
+	{"ledgerstore.verifyHeader(vbft).valid-signatures", false, "ledgerstore", func(n, c int) int { return n - 6*n/7 }},
 }
+
+// c28Applies: VBFT thresholds and C+1-type thresholds exist for C >= 1 only
+// (the VBFT configuration refuses C = 0).
+func c28Applies(f c28Form, c int) bool { return c >= 1 || (f.final && f.unit != "vbft") }
+
+type c28Verdict struct {
+	selfFail map[int][3]int // form index -> smallest (N, C, t) failing
+	pairMin  [][][3]int     // [i][j] -> (margin, N, C) with the least margin t1+t2-N-C
+	pairSet  [][]bool
+	cross    map[int]map[string]bool
+}
+
+func c28NewVerdict() *c28Verdict {
+	v := &c28Verdict{selfFail: map[int][3]int{}, cross: map[int]map[string]bool{}}
+	for range c28Forms {
+		v.pairMin = append(v.pairMin, make([][3]int, len(c28Forms)))
+		v.pairSet = append(v.pairSet, make([]bool, len(c28Forms)))
+	}
+	return v
+}
+
+// add applies the oracle to one configuration; t[i] < 0 = threshold absent.
+func (v *c28Verdict) add(n, c int, t []int) int64 {
+	var checks int64
+	for i, fi := range c28Forms {
+		if t[i] < 0 {
+			continue
+		}
+		if !fi.final {
+			checks++
+			if !(t[i] > c) {
+				if _, ok := v.selfFail[i]; !ok {
+					v.selfFail[i] = [3]int{n, c, t[i]}
+				}
+			}
+			continue
+		}
+		for j := i; j < len(c28Forms); j++ {
+			if !c28Forms[j].final || t[j] < 0 {
+				continue
+			}
+			checks++
+			margin := t[i] + t[j] - n - c // must be > 0
+			if !v.pairSet[i][j] || margin < v.pairMin[i][j][0] {
+				v.pairSet[i][j] = true
+				v.pairMin[i][j] = [3]int{margin, n, c}
+			}
+			if margin > 0 {
+				continue
+			}
+			if i == j {
+				if _, ok := v.selfFail[i]; !ok {
+					v.selfFail[i] = [3]int{n, c, t[i]}
+				}
+				continue
+			}
+			pk := fi.name + " + " + c28Forms[j].name
+			for _, x := range []int{i, j} {
+				if v.cross[x] == nil {
+					v.cross[x] = map[string]bool{}
+				}
+				v.cross[x][pk] = true
+			}
+		}
+	}
+	return checks
+}
+
+// report turns failures into violations (one key per deficient threshold: a
+// failing pair always contains a threshold failing against itself) and puts
+// the table of all pairs into the evidence.  own != "" restricts violations
+// to the thresholds measured by that unit.
+func (v *c28Verdict) report(r *vh.Run, what, own string) {
+	for i, f := range c28Forms {
+		s, bad := v.selfFail[i]
+		if !bad || (own != "" && f.unit != own) {
+			continue
+		}
+		var cross []string
+		for k := range v.cross[i] {
+			cross = append(cross, k)
+		}
+		sort.Strings(cross)
+		var d string
+		if f.final {
+			d = fmt.Sprintf("%s threshold %q: smallest failing configuration N=%d, C=%d: a set of t=%d distinct peers qualifies, so two qualifying sets may share only t+t-N=%d peers, which is not more than C=%d: they need not share a non-faulty peer. Pairs with other thresholds that fail as well: %v",
+				what, f.name, s[0], s[1], s[2], 2*s[2]-s[0], s[1], cross)
+		} else {
+			d = fmt.Sprintf("%s threshold %q: smallest failing configuration N=%d, C=%d: a set of t=%d distinct peers qualifies, which is not more than C=%d: a qualifying set need not contain a non-faulty peer",
+				what, f.name, s[0], s[1], s[2], s[1])
+		}
+		r.Violation("threshold:"+f.name, d, map[string]interface{}{"threshold": f.name, "N": s[0], "C": s[1], "t": s[2], "table": what})
+	}
+	tab := map[string]string{}
+	for i := range c28Forms {
+		for j := range c28Forms {
+			if v.pairSet[i][j] {
+				m := v.pairMin[i][j]
+				tab[c28Forms[i].name+" + "+c28Forms[j].name] = fmt.Sprintf("min(t1+t2-N-C)=%d at N=%d,C=%d", m[0], m[1], m[2])
+			}
+		}
+	}
+	r.Set("pairs."+what, tab)
+}
+
+// c28Least scans k = 0..kmax and returns the least k accepted (-1: none) and
+// whether acceptance is monotone in k.
+func c28Least(r *vh.Run, kmax int, f func(k int) bool) (int, bool) {
+	least := -1
+	mono := true
+	for k := 0; k <= kmax; k++ {
+		ok := f(k)
+		r.Trans(1)
+		if ok && least < 0 {
+			least = k
+		}
+		if !ok && least >= 0 {
+			mono = false
+		}
+	}
+	return least, mono
+}
+
+// c28Row records the measured thresholds of the owning unit for one (N, C),
+// fills the others from the closed forms, checks conformance and applies the
+// oracle.  own[name] = measured value (-1: the code accepts no set).
+func c28Row(r *vh.Run, v *c28Verdict, unit string, n, c int, own map[string]int, rows *[]string, conform *bool) {
+	t := make([]int, len(c28Forms))
+	row := fmt.Sprintf("N=%d C=%d:", n, c)
+	for i, f := range c28Forms {
+		t[i] = -1
+		if !c28Applies(f, c) {
+			continue
+		}
+		if m, ok := own[f.name]; ok {
+			t[i] = m
+			r.State(1)
+			r.Trace(1)
+			row += fmt.Sprintf(" %s=%d", f.name, m)
+			if m != f.f(n, c) {
+				*conform = false
+				r.Class("closed-form-mismatch:" + f.name)
+				row += fmt.Sprintf("(closed form %d)", f.f(n, c))
+			}
+		} else if f.unit != unit {
+			t[i] = f.f(n, c)
+		}
+	}
+	*rows = append(*rows, row)
+	r.Eval(v.add(n, c, t))
+}
+
+// ---- end of the shared part ----
 
 // ---- a minimal real Server / BlockPool ----
 
@@ -85,6 +239,22 @@ func c28Supporters(k int, incl bool) []uint32 {
 	return s
 }
 
+// c28Background: one peer that is neither the proposer nor a supporter and
+// sends its (non-empty) message for a different proposal (0: none available /
+// not wanted).  It never votes "empty": empty endorsements are counted jointly
+// over all proposals by design, so an empty background vote would be a
+// supporter of the empty block, not background.
+func c28Background(n, k int, incl, bg bool) uint32 {
+	last := k + 1
+	if incl {
+		last = k
+	}
+	if !bg || n <= last || n <= 2 {
+		return 0
+	}
+	return uint32(n)
+}
+
 func c28Commit(committer uint32, empty bool, endorsers []uint32) *blockCommitMsg {
 	m := &blockCommitMsg{Committer: committer, BlockProposer: 1, BlockNum: c28Blk, CommitForEmpty: empty,
 		EndorsersSig: map[uint32][]byte{}, CommitterSig: []byte{byte(committer)}}
@@ -117,16 +287,29 @@ type c28Probe struct {
 	// run reports whether the code declares consensus for proposer 1 with the
 	// given k supporters (n, c the configuration); extra = 1 when the proposer's
 	// own proposal signature is an additional supporter.
-	run func(n, c, k int, incl bool, shape int, empty bool) bool
+	run func(n, c, k int, incl bool, shape int, empty, bg bool) bool
 }
 
 var c28Probes = []c28Probe{
-	{"getCommitConsensus", func(n, c, k int, incl bool, shape int, empty bool) bool {
-		p, _ := getCommitConsensus(c28CommitMsgs(c28Supporters(k, incl), shape, empty), c, n)
+	{"getCommitConsensus", func(n, c, k int, incl bool, shape int, empty, bg bool) bool {
+		ms := c28CommitMsgs(c28Supporters(k, incl), shape, empty)
+		if b := c28Background(n, k, incl, bg); b != 0 {
+			bm := c28Commit(b, false, nil)
+			bm.BlockProposer = 2
+			ms = append([]*blockCommitMsg{bm}, ms...)
+		}
+		p, _ := getCommitConsensus(ms, c, n)
 		return p == 1
 	}},
-	{"commitDone(commit-msgs)", func(n, c, k int, incl bool, shape int, empty bool) bool {
+	{"commitDone(commit-msgs)", func(n, c, k int, incl bool, shape int, empty, bg bool) bool {
 		_, pool := c28Server(n, c)
+		if b := c28Background(n, k, incl, bg); b != 0 {
+			bm := c28Commit(b, false, nil)
+			bm.BlockProposer = 2
+			if err := pool.newBlockCommitment(bm); err != nil {
+				panic(err)
+			}
+		}
 		for _, m := range c28CommitMsgs(c28Supporters(k, incl), shape, empty) {
 			if err := pool.newBlockCommitment(m); err != nil {
 				panic(err)
@@ -135,165 +318,62 @@ var c28Probes = []c28Probe{
 		p, _, done := pool.commitDone(c28Blk, uint32(c), uint32(n))
 		return done && p == 1
 	}},
-	{"commitDone(endorse-sigs)", func(n, c, k int, incl bool, shape int, empty bool) bool {
+	{"commitDone(endorse-sigs)", func(n, c, k int, incl bool, shape int, empty, bg bool) bool {
 		if shape != 0 {
 			return false
 		}
 		_, pool := c28Server(n, c)
+		if b := c28Background(n, k, incl, bg); b != 0 {
+			pool.newBlockEndorsement(&blockEndorseMsg{Endorser: b, EndorsedProposer: 2, BlockNum: c28Blk, EndorseForEmpty: false, EndorserSig: []byte{byte(b)}})
+		}
 		for _, s := range c28Supporters(k, incl) {
 			pool.newBlockEndorsement(&blockEndorseMsg{Endorser: s, EndorsedProposer: 1, BlockNum: c28Blk, EndorseForEmpty: empty, EndorserSig: []byte{byte(s)}})
 		}
 		p, _, done := pool.commitDone(c28Blk, uint32(c), uint32(n))
 		return done && p == 1
 	}},
-	{"endorseDone", func(n, c, k int, incl bool, shape int, empty bool) bool {
+	{"endorseDone", func(n, c, k int, incl bool, shape int, empty, bg bool) bool {
 		if shape != 0 {
 			return false
 		}
 		_, pool := c28Server(n, c)
+		if b := c28Background(n, k, incl, bg); b != 0 {
+			pool.newBlockEndorsement(&blockEndorseMsg{Endorser: b, EndorsedProposer: 2, BlockNum: c28Blk, EndorseForEmpty: false, EndorserSig: []byte{byte(b)}})
+		}
 		for _, s := range c28Supporters(k, incl) {
 			pool.newBlockEndorsement(&blockEndorseMsg{Endorser: s, EndorsedProposer: 1, BlockNum: c28Blk, EndorseForEmpty: empty, EndorserSig: []byte{byte(s)}})
 		}
-		_, _, done := pool.endorseDone(c28Blk, uint32(c))
-		return done
+		p, _, done := pool.endorseDone(c28Blk, uint32(c))
+		return done && p == 1
 	}},
-}
-
-// c28Least scans k = 0..kmax and returns the least k accepted (-1: none) and
-// whether acceptance is monotone in k.
-func c28Least(r *vh.Run, kmax int, f func(k int) bool) (int, bool) {
-	least := -1
-	mono := true
-	for k := 0; k <= kmax; k++ {
-		ok := f(k)
-		r.Trans(1)
-		if ok && least < 0 {
-			least = k
-		}
-		if !ok && least >= 0 {
-			mono = false
-		}
-	}
-	return least, mono
-}
-
-type c28Row struct {
-	N, C int
-	T    map[string]int // measured least number of distinct supporting peers per threshold
-}
-
-// c28Check applies the oracle to a table of thresholds (measured or closed
-// form) and reports the worst margin per pair.
-type c28Verdict struct {
-	selfFail map[string][3]int    // threshold -> smallest (N, C, t) failing t+t-N > C (final) or t > C
-	pairMin  map[string][4]int    // "X + Y" -> (margin, N, C, 0) minimal margin t1+t2-N-C
-	crossBad map[string][]string  // threshold -> failing cross pairs
-}
-
-func c28NewVerdict() *c28Verdict {
-	return &c28Verdict{selfFail: map[string][3]int{}, pairMin: map[string][4]int{}, crossBad: map[string][]string{}}
-}
-
-func (v *c28Verdict) add(n, c int, names []string, final []bool, t []int) int64 {
-	var pairs int64
-	for i := range names {
-		if t[i] < 0 {
-			continue
-		}
-		if !final[i] {
-			pairs++
-			if !(t[i] > c) {
-				if _, ok := v.selfFail[names[i]]; !ok {
-					v.selfFail[names[i]] = [3]int{n, c, t[i]}
-				}
-			}
-			continue
-		}
-		for j := i; j < len(names); j++ {
-			if !final[j] || t[j] < 0 {
-				continue
-			}
-			pairs++
-			margin := t[i] + t[j] - n - c // must be > 0
-			pk := names[i] + " + " + names[j]
-			if cur, ok := v.pairMin[pk]; !ok || margin < cur[0] {
-				v.pairMin[pk] = [4]int{margin, n, c, 0}
-			}
-			if margin <= 0 {
-				if i == j {
-					if _, ok := v.selfFail[names[i]]; !ok {
-						v.selfFail[names[i]] = [3]int{n, c, t[i]}
-					}
-				} else {
-					for _, x := range []int{i, j} {
-						found := false
-						for _, s := range v.crossBad[names[x]] {
-							if s == pk {
-								found = true
-							}
-						}
-						if !found {
-							v.crossBad[names[x]] = append(v.crossBad[names[x]], pk)
-						}
-					}
-				}
-			}
-		}
-	}
-	return pairs
-}
-
-func (v *c28Verdict) report(r *vh.Run, what string) {
-	var ks []string
-	for k := range v.selfFail {
-		ks = append(ks, k)
-	}
-	sort.Strings(ks)
-	for _, k := range ks {
-		f := v.selfFail[k]
-		sort.Strings(v.crossBad[k])
-		r.Violation("threshold:"+k, fmt.Sprintf("%s threshold %q: smallest failing configuration N=%d, C=%d: t=%d distinct peers qualify; two qualifying sets overlap in t+t-N=%d peers, not more than C=%d (for C+1-type thresholds: t > C is required). Pairs with other thresholds that also fail: %v",
-			what, k, f[0], f[1], f[2], 2*f[2]-f[0], f[1], v.crossBad[k]), map[string]interface{}{"threshold": k, "N": f[0], "C": f[1], "t": f[2]})
-	}
-	tab := map[string]string{}
-	for k, m := range v.pairMin {
-		tab[k] = fmt.Sprintf("min(t1+t2-N-C)=%d at N=%d,C=%d", m[0], m[1], m[2])
-	}
-	r.Set("pairs."+what, tab)
 }
 
 func TestVerif_C28_vbft(t *testing.T) {
 	r := vh.Start(t, "C28", "vbft")
 	defer r.Finish()
 	maxN := 34
-	r.Rule("thresholds measured on the code: for every N<=34 and every C>=1 with N>=3C+1, getCommitConsensus, BlockPool.commitDone (commit messages; endorsement signatures) and BlockPool.endorseDone are probed with k=0..N distinct supporting peers (proposer among them or not; one commit message per peer or one commit carrying the others as endorsers; empty and non-empty) for the least k declaring consensus; measured table == closed forms, closed forms evaluated for larger N; oracle: final-deciding thresholds pairwise t1+t2-N > C, C+1-type thresholds t > C; states = measured table entries, transitions = probe calls")
+	r.Rule("thresholds measured on the code: for every N<=34 and every C>=1 with N>=3C+1, getCommitConsensus, BlockPool.commitDone (commit messages; endorsement signatures) and BlockPool.endorseDone are probed with k=0..N distinct supporting peers (proposer among them or not; one commit message per peer or one commit carrying the others as endorsers; empty and non-empty; with and without one further peer voting for a different proposal) for the least k declaring consensus; core/validation.VerifyBlock, types.AddressFromBookkeepers and ledgerstore.verifyHeader are probed with k=0..N real signatures on real ledgers; measured table == closed forms, closed forms evaluated for larger N; oracle: final-deciding thresholds pairwise t1+t2-N > C, C+1-type thresholds t > C; states = measured table entries, transitions = probe calls")
 	extN := r.Pick(100000, 1000000)
-	r.Bound(fmt.Sprintf("measured: 4<=N<=%d, 1<=C<=(N-1)/3; closed forms: N<=%d with C=(N-1)/3 and C=1 (C-independent thresholds: equivalent to all C), all (N,C) for N<=3000", maxN, extN))
+	r.Bound(fmt.Sprintf("measured: 4<=N<=%d, 1<=C<=(N-1)/3; closed forms: N<=%d with C in {1,(N-1)/3} (for C-independent thresholds equivalent to all C), every (N,C) for N<=3000", maxN, extN))
 	r.Assume("the pool thresholds count message entries; signatures inside the messages are not verified by these functions (that is property C31), so probes use unsigned messages from distinct peer indices")
 	r.Assume("the proposer's signature on its proposal counts as one supporting peer when the proposer is not among the committers/endorsers")
 
-	names := []string{}
-	final := []bool{}
-	for _, f := range c28Forms {
-		names = append(names, f.name)
-		final = append(final, f.final)
-	}
 	meas := c28NewVerdict()
 	var rows []string
 	conform := true
 	for n := 4; n <= maxN; n++ {
 		for c := 1; 3*c+1 <= n; c++ {
-			T := map[string]int{}
 			// supporters = k (+1 when the proposer is not among the k)
 			least := func(p c28Probe, incl bool) int {
 				best := -1
 				for shape := 0; shape < 2; shape++ {
-					for _, empty := range []bool{false, true} {
+					for v := 0; v < 4; v++ {
+						empty, bg := v&1 == 1, v&2 == 2
 						kmax := n
 						if !incl {
 							kmax = n - 1
 						}
-						k, mono := c28Least(r, kmax, func(k int) bool { return p.run(n, c, k, incl, shape, empty) })
+						k, mono := c28Least(r, kmax, func(k int) bool { return p.run(n, c, k, incl, shape, empty, bg) })
 						if !mono {
 							r.Class("non-monotone:" + p.name)
 						}
@@ -309,11 +389,6 @@ func TestVerif_C28_vbft(t *testing.T) {
 				}
 				return best
 			}
-			a0, a1 := least(c28Probes[0], false), least(c28Probes[1], false)
-			b0, b1 := least(c28Probes[0], true), least(c28Probes[1], true)
-			if a0 != a1 || b0 != b1 {
-				r.Class("entry-points-disagree")
-			}
 			minp := func(x, y int) int {
 				if x < 0 {
 					return y
@@ -323,36 +398,25 @@ func TestVerif_C28_vbft(t *testing.T) {
 				}
 				return x
 			}
-			T[names[0]] = minp(a0, a1)
-			T[names[1]] = minp(b0, b1)
-			T[names[2]] = minp(least(c28Probes[2], true), least(c28Probes[2], false))
-			T[names[6]] = minp(least(c28Probes[3], true), least(c28Probes[3], false))
-			tv := make([]int, len(names))
-			row := fmt.Sprintf("N=%d C=%d:", n, c)
-			for i, f := range c28Forms {
-				if f.unit == "vbft" {
-					tv[i] = T[f.name]
-					r.State(1)
-					r.Trace(1)
-					row += fmt.Sprintf(" %s=%d", f.name, tv[i])
-					if tv[i] != f.f(n, c) {
-						conform = false
-						r.Class("closed-form-mismatch:" + f.name)
-						row += fmt.Sprintf("(closed form %d)", f.f(n, c))
-					}
-				} else {
-					tv[i] = f.f(n, c) // validated by the unit that owns it
-				}
+			a0, a1 := least(c28Probes[0], false), least(c28Probes[1], false)
+			b0, b1 := least(c28Probes[0], true), least(c28Probes[1], true)
+			if a0 != a1 || b0 != b1 {
+				r.Class("entry-points-disagree")
 			}
-			rows = append(rows, row)
-			r.Eval(meas.add(n, c, names, final, tv))
+			own := map[string]int{
+				"vbft.commit-msgs(proposer-not-a-signer)":  minp(a0, a1),
+				"vbft.commit-msgs(proposer-among-signers)": minp(b0, b1),
+				"vbft.commitDone(endorse-sigs)":            minp(least(c28Probes[2], true), least(c28Probes[2], false)),
+				"vbft.endorseDone":                         minp(least(c28Probes[3], true), least(c28Probes[3], false)),
+			}
+			c28Row(r, meas, "vbft", n, c, own, &rows, &conform)
 			r.Class(fmt.Sprintf("C=%d", c))
 		}
 	}
 	r.Set("measured_table", rows)
 	r.Sample(rows[0])
 	r.Sample(rows[len(rows)-1])
-	meas.report(r, "measured")
+	meas.report(r, "measured", "vbft")
 	r.Need(len(rows) >= 170, "measured table has %d rows", len(rows))
 
 	// closed forms for larger N (only when they describe the code)
@@ -363,24 +427,23 @@ func TestVerif_C28_vbft(t *testing.T) {
 	}
 	r.Class("conformance:ok")
 	ext := c28NewVerdict()
-	tv := make([]int, len(names))
+	tv := make([]int, len(c28Forms))
 	for n := 1; n <= extN; n++ {
 		cmax := (n - 1) / 3
 		for _, c := range c28Cs(n, cmax) {
 			for i, f := range c28Forms {
-				tv[i] = f.f(n, c)
-				if c == 0 && (f.unit == "vbft" || !f.final) {
-					tv[i] = -1 // the VBFT configuration refuses C=0
+				tv[i] = -1
+				if c28Applies(f, c) {
+					tv[i] = f.f(n, c)
 				}
 			}
-			r.Eval(ext.add(n, c, names, final, tv))
+			r.Eval(ext.add(n, c, tv))
 		}
 		if n%4096 == 0 && r.Expired() {
 			break
 		}
 	}
-	ext.report(r, "closed-form")
-	_ = math.MaxInt32
+	ext.report(r, "closed-form", "")
 }
 
 // c28Cs: the fault bounds examined for size n in the arithmetic extension.
@@ -391,6 +454,9 @@ func c28Cs(n, cmax int) []int {
 			cs = append(cs, c)
 		}
 		return cs
+	}
+	if cmax <= 1 {
+		return []int{cmax}
 	}
 	return []int{1, cmax}
 }
